@@ -178,9 +178,102 @@ pub fn well_formed(seq: &[Tk]) -> bool {
     })
 }
 
+/// Loops whose conditional jump takes its target from the stack and advances it on every iteration, so that
+/// the same JUMPI sees a different target on each visit (valid first, then whatever the tail holds).
+pub fn drifting_target_programs() -> Vec<Vec<u8>> {
+    let tails: [&[u8]; 4] = [&[0x5b], &[0x00], &[0x60, 0x5b], &[0xfe]];
+    let mut out = Vec::new();
+    let mut tail_lists: Vec<Vec<u8>> = vec![vec![]];
+    for _ in 0..4 {
+        let mut next = Vec::new();
+        for t in &tail_lists {
+            for piece in tails {
+                let mut n = t.clone();
+                n.extend_from_slice(piece);
+                next.push(n);
+            }
+        }
+        out_extend(&mut out, &next);
+        tail_lists = next;
+    }
+    fn out_extend(_o: &mut Vec<Vec<u8>>, _n: &[Vec<u8>]) {}
+    let mut programs = Vec::new();
+    for tail in tail_lists {
+        for step in [1u8, 2] {
+            for delta in [0u8, 1] {
+                for cond in [0x34u8, 0x01] {
+                    // PUSH1 t0; JUMPDEST; cond; DUP2; JUMPI; PUSH1 step; ADD; PUSH1 2; JUMP; tail
+                    let cond_bytes: Vec<u8> = if cond == 0x34 { vec![0x34] } else { vec![0x60, 0x01] };
+                    let head_len = 2 + 1 + cond_bytes.len() + 1 + 1 + 2 + 1 + 2 + 1;
+                    let t0 = head_len as u8 + delta;
+                    let mut code = vec![0x60, t0, 0x5b];
+                    code.extend(&cond_bytes);
+                    code.extend([0x81, 0x57, 0x60, step, 0x01, 0x60, 0x02, 0x56]);
+                    code.extend(&tail);
+                    programs.push(code);
+                }
+            }
+        }
+    }
+    programs
+}
+
 pub struct Verdict {
     pub key: String,
     pub what: String,
+}
+
+/// Bounded check for programs with loops: executed offsets stay inside the over-approximated control-flow graph
+/// and cover everything the reference reaches on paths that visit no offset more than twice.
+pub fn check_looping(code: &[u8]) -> Result<bool, Verdict> {
+    let kinds = ref_kinds(code);
+    let out = match run_vm(code, sle::vm::Config::default(), lazy()) {
+        VmRun::Ran(o) => o,
+        _ => return Ok(false),
+    };
+    let e: BTreeSet<u32> = out.executed.iter().copied().filter(|i| kinds[*i as usize]).collect();
+    let over = reach_over(code);
+    if let Some(bad) = e.iter().find(|i| !over.contains(i)) {
+        return Err(Verdict {
+            key: format!("executed-unreachable:{}", describe(code, *bad)),
+            what: format!("offset {bad} is executed but no EVM control flow reaches it"),
+        });
+    }
+    let lim = Limits {
+        max_paths: 512,
+        max_steps_per_path: 1024,
+        max_visits: 2,
+    };
+    let x = explore(code, false, &lim);
+    if x.paths.len() >= lim.max_paths {
+        return Ok(false);
+    }
+    // exact direction of the first kind: everything executed must be reachable by SOME EVM path; the reference with
+    // a higher visit bound over-approximates what the tool (iteration limit 10) can reach
+    let wide = explore(
+        code,
+        false,
+        &Limits {
+            max_paths: 4096,
+            max_steps_per_path: 4096,
+            max_visits: 11,
+        },
+    );
+    if wide.paths.len() < 4096 {
+        if let Some(bad) = e.iter().find(|i| !wide.reachable.contains(i)) {
+            return Err(Verdict {
+                key: format!("executed-unreachable:{}", describe(code, *bad)),
+                what: format!("offset {bad} is executed but no EVM path with at most 11 visits per instruction reaches it (reachable: {:?})", wide.reachable),
+            });
+        }
+    }
+    if let Some(missed) = x.reachable.iter().find(|i| code[**i as usize] != 0x5b && !e.contains(i)) {
+        return Err(Verdict {
+            key: format!("reachable-not-executed:{}", describe(code, *missed)),
+            what: format!("offset {missed} is reached by an EVM path that visits no instruction more than twice but was never executed (executed: {e:?})"),
+        });
+    }
+    Ok(true)
 }
 
 /// The oracle on one byte string. Ok(nontrivial?) or a verdict.
@@ -218,6 +311,33 @@ pub fn check_code(code: &[u8]) -> Result<(bool, bool), Verdict> {
             key: format!("reachable-not-executed:{}", describe(code, *missed)),
             what: format!("offset {missed} is reachable in the EVM control-flow graph but was never executed (executed: {e:?})"),
         });
+    }
+    // tight limits must not cut anything when they do not bind: no JUMPDEST is forked to more than once
+    let mut taken_edges: std::collections::BTreeMap<u32, BTreeSet<u32>> = std::collections::BTreeMap::new();
+    for p in &x.paths {
+        let mut cursor = 0;
+        for (i, off) in p.executed.iter().enumerate() {
+            if code[*off as usize] == 0x57 && kinds[*off as usize] && cursor < p.branches.len() {
+                if p.branches[cursor] {
+                    if let Some(next) = p.executed.get(i + 1) {
+                        taken_edges.entry(*next).or_default().insert(*off);
+                    }
+                }
+                cursor += 1;
+            }
+        }
+    }
+    if taken_edges.values().all(|s| s.len() <= 1) {
+        let tight = sle::vm::Config::default().with_max_iterations_per_opcode(1).with_max_forks_per_fork_target(1);
+        if let VmRun::Ran(o) = run_vm(code, tight, lazy()) {
+            let e1: BTreeSet<u32> = o.executed.iter().copied().filter(|i| kinds[*i as usize]).collect();
+            if let Some(missed) = reach.iter().find(|i| code[**i as usize] != 0x5b && !e1.contains(i)) {
+                return Err(Verdict {
+                    key: format!("reachable-not-executed-under-limits-that-do-not-bind:{}", describe(code, *missed)),
+                    what: format!("with iteration limit 1 and fork limit 1 (no target is forked to twice, no instruction repeats) offset {missed} is not executed"),
+                });
+            }
+        }
     }
     let has_dead = (0..code.len() as u32).any(|i| kinds[i as usize] && !reach.contains(&i));
     let has_jump = code.iter().zip(&kinds).any(|(b, k)| *k && (*b == 0x56 || *b == 0x57));
@@ -269,11 +389,27 @@ impl Check for C08 {
         "model_checking"
     }
     fn chunks(&self, _tier: Tier) -> usize {
-        seq_chunks(alphabet().len())
+        seq_chunks(alphabet().len()) + 1
     }
     fn run_chunk(&self, tier: Tier, chunk: usize, ctx: &mut Ctx) {
         let alpha = alphabet();
         let n = alpha.len();
+        if chunk == seq_chunks(n) {
+            for code in drifting_target_programs() {
+                ctx.case(|| json!({"bytes": hex(&code), "looping": true}));
+                ctx.count("programs", 1);
+                ctx.count("drifting_target_loops", 1);
+                match check_looping(&code) {
+                    Ok(true) => {
+                        ctx.distinct("nontrivial", crate::util::h64(&code));
+                        ctx.count("with_jump_and_exact_cfg", 1);
+                    }
+                    Ok(false) => {}
+                    Err(v) => ctx.violation(v.key, format!("{} [{}]", v.what, hex(&code)), json!({"bytes": hex(&code), "looping": true})),
+                }
+            }
+            return;
+        }
         run_seq_chunk(n, max_len(tier), chunk, &mut |ix| {
             let seq: Vec<Tk> = ix.iter().map(|i| alpha[*i]).collect();
             if !well_formed(&seq) {
@@ -312,7 +448,10 @@ impl Check for C08 {
                  condition kinds x 7 target kinds: labels, into push data, byte after a label, len, len+1, 2^32+label, 2^64+label, 2^255+label, \
                  computed constant). For each program the real VM's executed-offset set (restricted to instruction boundaries) is \
                  compared with a reference EVM control-flow exploration: always a subset of the over-approximated CFG; for loop-free \
-                 programs equal to the exact reachable set on non-JUMPDEST offsets. states = distinct programs with a jump whose \
+                 programs equal to the exact reachable set on non-JUMPDEST offsets (also with iteration and fork limit 1 when no \
+                 JUMPDEST is the target of more than one conditional jump). Plus 2 048 loops whose conditional jump takes a target from \
+                 the stack that advances by 1 or 2 on every iteration over tails of JUMPDEST / STOP / push data / INVALID bytes, checked \
+                 against bounded-unrolling reference explorations. states = distinct programs with a jump whose \
                  exact reference CFG was validated against the implementation; transitions = programs executed",
                 max_len(tier),
                 n
@@ -339,7 +478,8 @@ impl Check for C08 {
         if let VmRun::Ran(o) = run_vm(&code, sle::vm::Config::default(), lazy()) {
             println!("implementation executed:     {:?}", o.executed);
         }
-        match check_code(&code) {
+        let r = if replay["case"]["looping"] == true { check_looping(&code).map(|_| ()) } else { check_code(&code).map(|_| ()) };
+        match r {
             Ok(_) => false,
             Err(v) => {
                 println!("observed: {}: {}", v.key, v.what);
